@@ -175,8 +175,13 @@ pub fn plain_root(fs: &FsArc) -> VfsPath {
 
 /// Build the filesystem object for `cfg` (no pre-population, no wrappers).
 pub fn build_fs(cfg: &Cfg, scratch: &mut Vec<Arc<Scratch>>) -> Result<FsArc, String> {
+    build_fs_lw(cfg, scratch, &|fs| fs)
+}
+
+/// Same, with every leaf backend (MemoryFS / PhysicalFS) passed through `leafwrap`.
+pub fn build_fs_lw(cfg: &Cfg, scratch: &mut Vec<Arc<Scratch>>, leafwrap: &dyn Fn(FsArc) -> FsArc) -> Result<FsArc, String> {
     match cfg {
-        Cfg::Mem => Ok(Arc::new(MemoryFS::new())),
+        Cfg::Mem => Ok(leafwrap(Arc::new(MemoryFS::new()))),
         Cfg::Phys => {
             let s = Arc::new(Scratch::new("phys"));
             let rootdir = s.dir.join("jail").join("root");
@@ -184,10 +189,10 @@ pub fn build_fs(cfg: &Cfg, scratch: &mut Vec<Arc<Scratch>>) -> Result<FsArc, Str
             // sentinel next to the root: confinement checks look at it
             let _ = std::fs::write(s.dir.join("jail").join("sentinel"), b"sentinel");
             scratch.push(s);
-            Ok(Arc::new(PhysicalFS::new(rootdir)))
+            Ok(leafwrap(Arc::new(PhysicalFS::new(rootdir))))
         }
         Cfg::Alt(inner, depth) => {
-            let under = plain_root(&build_fs(inner, scratch)?);
+            let under = plain_root(&build_fs_lw(inner, scratch, leafwrap)?);
             let mut p = under.clone();
             for i in 0..*depth {
                 p = p.join(ALT_NAMES[i % ALT_NAMES.len()]).map_err(|e| e.to_string())?;
@@ -198,12 +203,12 @@ pub fn build_fs(cfg: &Cfg, scratch: &mut Vec<Arc<Scratch>>) -> Result<FsArc, Str
         Cfg::Ovl(ls) => {
             let mut roots = vec![];
             for l in ls {
-                roots.push(plain_root(&build_fs(l, scratch)?));
+                roots.push(plain_root(&build_fs_lw(l, scratch, leafwrap)?));
             }
             Ok(Arc::new(OverlayFS::new(&roots)))
         }
         Cfg::OvlSub(inner, n) => {
-            let shared = plain_root(&build_fs(inner, scratch)?);
+            let shared = plain_root(&build_fs_lw(inner, scratch, leafwrap)?);
             let mut roots = vec![];
             for i in 0..(*n).clamp(1, 4) {
                 let l = shared.join(LAYER_DIRS[i]).map_err(|e| e.to_string())?;
@@ -224,6 +229,16 @@ pub fn build_with(
     prepop: &Prepop,
     wrap: &dyn Fn(FsArc, usize) -> VfsPath,
 ) -> Result<Built, String> {
+    build_full(cfg, prepop, wrap, &|fs| fs)
+}
+
+/// build_with plus a wrapper around every leaf backend
+pub fn build_full(
+    cfg: &Cfg,
+    prepop: &Prepop,
+    wrap: &dyn Fn(FsArc, usize) -> VfsPath,
+    leafwrap: &dyn Fn(FsArc) -> FsArc,
+) -> Result<Built, String> {
     let mut scratch = vec![];
     // descend through altroots to the outermost overlay
     let mut alts: Vec<usize> = vec![];
@@ -236,7 +251,7 @@ pub fn build_with(
         Cfg::Ovl(ls) => {
             let mut raw = vec![];
             for l in ls {
-                raw.push(build_fs(l, &mut scratch)?);
+                raw.push(build_fs_lw(l, &mut scratch, leafwrap)?);
             }
             // visible path q of the final root = alt prefixes (innermost first) + q
             let mut prefix = String::new();
@@ -256,7 +271,7 @@ pub fn build_with(
         }
         Cfg::OvlSub(inner, n) => {
             let n = (*n).clamp(1, 4);
-            let shared_fs = build_fs(inner, &mut scratch)?;
+            let shared_fs = build_fs_lw(inner, &mut scratch, leafwrap)?;
             let shared_plain = plain_root(&shared_fs);
             let mut prefix = String::new();
             for d in alts.iter().rev() {
@@ -285,7 +300,7 @@ pub fn build_with(
             (VfsPath::new(OverlayFS::new(&layer_paths)), raw_roots)
         }
         other => {
-            let fs = build_fs(other, &mut scratch)?;
+            let fs = build_fs_lw(other, &mut scratch, leafwrap)?;
             (wrap(fs, 0), vec![])
         }
     };
